@@ -87,6 +87,14 @@ class C18:
                      "arch": rng.choice(["amd64", "amd64", "arm64"]), "meta": rng.choice([0, 1])}
                     for _ in range(rng.randint(1, 6))]
             cases.append({"kind": "resolve", "arts": arts, "queries": self._queries(rng)})
+        # the bundled requirement type: semver::VersionReq over semver::Version (pre-releases, build metadata)
+        SV = ["1.4.0", "1.5.0", "2.0.0-rc.1", "2.0.0", "2.0.0+build.5", "1.5.0-beta.2", "0.9.9", "2.1.0-alpha"]
+        RQ = [">=1.0.0", "^2", "=2.0.0-rc.1", "<2.0.0", "*", ">=2.0.0-rc.0", "~1.4", "^1.5.0-beta.1", ">=2.1.0-alpha", "<=1.5.0"]
+        for _ in range(300 if tier == "thorough" else 60):
+            arts = [{"sv": rng.choice(SV), "os": rng.choice(["linux", "linux", "darwin"]), "arch": rng.choice(["amd64", "amd64", "arm64"])}
+                    for _ in range(rng.randint(1, 5))]
+            qs = [{"req": r, "os": "linux", "arch": "amd64"} for r in rng.sample(RQ, 5)]
+            cases.append({"kind": "resolve", "semver": True, "arts": arts, "queries": qs})
         # checksums
         prefixes = ["sha256", "sha512", "SHA256", "sha256 ", " sha256", "", "sha25", "sha2566", "sha256:sha256"]
         seps = [":", "", "::", ": "]
@@ -153,6 +161,17 @@ class C18:
         return obs
 
     def to_coq(self, c, o):
+        if c["kind"] == "resolve" and c.get("semver"):
+            # versions as ranks (rank, 0): the lexicographic order on them is the semver order; a requirement is the set of
+            # versions it admits (VersionReq::matches)
+            arts = [{"ver": [rk, 0], "os": a["os"], "arch": a["arch"], "meta": 0} for a, rk in zip(c["arts"], o["ranks"])]
+            qs = []
+            for q, r in zip(c["queries"], o["results"]):
+                allowed = [[rk, 0] for rk, ok in zip(o["ranks"], r["admitted"]) if ok]
+                req = "(mkReq %s 0)" % cq_list([cq_ver(v) for v in allowed])
+                qs.append("(mkQ %s %s %s %s %s %s)" % ("Linux" if q["os"] == "linux" else "Darwin", "Arm64" if q["arch"] == "arm64" else "Amd64", req,
+                                                      cq_onat(r["partial"]), cq_onat(r["total"]), cq_onat(r["pnan"])))
+            return f"(CResolve {cq_list([cq_art(a) for a in arts])} {cq_list(qs)})"
         if c["kind"] == "resolve":
             qs = []
             for q, r in zip(c["queries"], o["results"]):
@@ -192,10 +211,10 @@ class C18:
         if c["kind"] == "resolve":
             if len(c["queries"]) > 1:
                 for q in c["queries"]:
-                    yield {"kind": "resolve", "arts": c["arts"], "queries": [q]}
+                    yield dict(c, queries=[q])
             else:
                 for i in range(len(c["arts"])):
-                    yield {"kind": "resolve", "arts": c["arts"][:i] + c["arts"][i + 1:], "queries": c["queries"]}
+                    yield dict(c, arts=c["arts"][:i] + c["arts"][i + 1:])
         elif c["kind"] == "toml":
             for i in range(len(c["arts"])):
                 yield {"kind": "toml", "arts": c["arts"][:i] + c["arts"][i + 1:]}
@@ -204,7 +223,7 @@ class C18:
         if c["kind"] == "checksum":
             return {"kind": "checksum", "s": bytes(c["s"]).decode("utf-8", "replace"), "observed": {k: v for k, v in o.items() if k in ("ok", "err")}}
         if c["kind"] == "resolve":
-            return {"kind": "resolve", "arts": [a["ver"] for a in c["arts"]], "query0": c["queries"][0], "result0": o["results"][0]}
+            return {"kind": "resolve", "arts": [a.get("ver", a.get("sv")) for a in c["arts"]], "query0": c["queries"][0], "result0": o["results"][0]}
         return {"kind": "toml", "n": len(c["arts"]), "text": bytes(o["text"]).decode("utf-8", "replace")[:300]}
 
     def distribution(self, cases, obs):
